@@ -12,10 +12,12 @@ import (
 	"fmt"
 	"math/big"
 	"net"
+	"os"
 	"runtime"
 	"strconv"
 	"strings"
 	"sync"
+	"syscall"
 	"time"
 
 	"github.com/pion/stun/v3"
@@ -121,8 +123,26 @@ func c17Build(si, hi, pi, qi int) uriCase {
 }
 
 // c17Invariants checks what the statement demands of every accepted URI, and the round trip.
+// c17Kept: strings returned by URI.String() earlier, with a private copy of what they read then.
+var c17Kept [64][2]string //nolint:gochecknoglobals
+var c17KeptN int          //nolint:gochecknoglobals
+var c17KeptMu sync.Mutex  //nolint:gochecknoglobals
+
 func c17Invariants(c *core.Ctx, raw string, u *stun.URI) bool {
 	detail := map[string]interface{}{"input": raw, "uri": fmt.Sprintf("%+v", *u)}
+	formatted := u.String()
+	c17KeptMu.Lock()
+	for _, kv := range c17Kept {
+		if kv[0] != kv[1] {
+			c.Violate("roundtrip", "string-changed-after-it-was-returned", map[string]interface{}{"returned_then": kv[1], "reads_now": kv[0]})
+			c17KeptMu.Unlock()
+
+			return false
+		}
+	}
+	c17Kept[c17KeptN%len(c17Kept)] = [2]string{formatted, strings.Clone(formatted)}
+	c17KeptN++
+	c17KeptMu.Unlock()
 	if u.Scheme < stun.SchemeTypeSTUN || u.Scheme > stun.SchemeTypeTURNS {
 		c.Violate("accepted-unknown-scheme", "invariant:scheme", detail)
 
@@ -551,6 +571,8 @@ func c17(c *core.Ctx) {
 		"turn:example.org", "turn:example.org?transport=tcp", "turn:192.0.2.9:3479?transport=udp", "turn:[2001:db8::2]?transport=tcp",
 		"turns:example.org", "turns:example.org:443?transport=tcp", "turns:[::1]:5350?transport=tcp",
 		"turns:127.0.0.1?transport=udp", "turns:localhost:5350?transport=udp", "turns:[::1]:7000?transport=udp",
+		"turns:127.0.0.1:5351?transport=udp", "turns:127.0.0.1:443?transport=udp", "turns:127.0.0.1?transport=udp", // one host, several ports
+		"turns:[::1]:7001?transport=udp", "stuns:192.0.2.7:444", "turn:192.0.2.9:3480?transport=udp", "stun:example.org:3479",
 		"stun:[::ffff:192.0.2.7]:3478", "turn:[::ffff:192.0.2.7]?transport=tcp", "stuns:[::ffff:c000:207]", "turn:[0:0:0:0:0:ffff:1.2.3.4]:1?transport=udp",
 	}
 	// server names of every length a URI can carry, around the DNS limits (63-byte labels, 253/254/255-byte names)
@@ -657,7 +679,11 @@ func c17(c *core.Ctx) {
 	// a dial that fails is reported as it is: one attempt, on the transport the URI denotes, its error handed back
 	c.SectionSerial("dial-failure", 12, func(i int64, _ *gen.Rand) {
 		raw := []string{"stun:example.org", "turn:example.org", "turn:example.org?transport=tcp", "stuns:example.org", "turns:example.org?transport=tcp", "turn:192.0.2.1:9?transport=udp"}[i%6]
-		errs := []error{errors.New("network is unreachable"), &net.OpError{Op: "dial", Net: "udp", Err: errors.New("operation not permitted")}}
+		_ = raw
+		errs := []error{errors.New("network is unreachable"), &net.OpError{Op: "dial", Net: "udp", Err: os.NewSyscallError("connect", []error{syscall.ENETUNREACH, syscall.EAFNOSUPPORT, syscall.EHOSTUNREACH}[i%3])}}
+		if i%6 == 5 {
+			raw = "turn:[2001:db8::9]:9?transport=udp" // an IPv6 literal the host cannot reach
+		}
 		u, err := stun.ParseURI(raw)
 		if err != nil {
 			c.Violate("valid-rejected", "valid-rejected", map[string]interface{}{"input": raw})
@@ -691,6 +717,12 @@ func c17(c *core.Ctx) {
 			c.Violate("wrong-transport", "dial-failure-retried-elsewhere", detail)
 		case !errors.Is(derr, errs[i/6]) && derr.Error() != errs[i/6].Error():
 			c.Violate("wrong-transport", "dial-error-lost", detail)
+		}
+		// one failed dial is one failed dial: what is dialled afterwards is unaffected
+		for _, next := range []string{"stun:[2001:db8::1]:99", "turn:192.0.2.9:3479?transport=tcp", "turn:[2001:db8::2]?transport=udp"} {
+			if nu, perr := stun.ParseURI(next); perr == nil {
+				c17CheckDial(c, nu, true, next+" (after a failed dial)")
+			}
 		}
 		c.Distinct(gen.HashString(fmt.Sprintf("dialfail%d", i)))
 	})
